@@ -408,6 +408,11 @@ class ClassContract:
         self.shape = d.get('shape')
         self.inv = _plain(d['inv']) if 'inv' in d else None
         self.rebuild = _plain(d['rebuild']) if 'rebuild' in d else None
+        self.sample = _plain(d['sample']) if 'sample' in d else None
+        # trace(model_obj) -> (fresh real object, [(method qualname, {arg: value}), ...]): the public
+        # API calls that should lead from a fresh object to the model state (replay of class
+        # invariant counter-models: each step is checked natively against its own contract)
+        self.trace = _plain(d['trace']) if 'trace' in d else None
 
 
 class Lemma:
